@@ -1,7 +1,7 @@
 #!/bin/sh
 # tools/try_mutant.sh <patch.diff> <Cnn> [tier]  -- apply a patch to /repo, run the check, undo the patch.
 set -u
-patch=$1; prop=$2; tier=${3:-quick}
+patch=$(readlink -f "$1"); prop=$2; tier=${3:-quick}
 git -C /repo diff --quiet || { echo "/repo is dirty"; exit 3; }
 git -C /repo apply "$patch" || { echo "patch does not apply"; exit 3; }
 /verif/check "$prop" --tier "$tier" > /tmp/rigverif-mutant.out 2>&1
